@@ -67,7 +67,8 @@ def generate(rng, tier, index):
                             "dirs": rng.choice([["moved"], ["up", "loaded"], []])},
             "restart": rng.random() < 0.5, "cli_explicit_dir": rng.random() < 0.4,
             "consumer_spelling": spell,
-            "default_use_cache": rng.random() < 0.5}
+            "default_use_cache": rng.random() < 0.5,
+            "uncached_also_creates": rng.random() < 0.35}
 
 
 def _reads_of(events, pred):
@@ -206,7 +207,10 @@ def execute(plan):
         # ------------------------------------------------------------ consume without cache
         mark = SIM.mark()
         try:
-            t2 = w.open(use_cache=False, records_per_chunk=r)
+            # use_cache=False must not consult any index - also when the same call is asked to
+            # (re)create the cache
+            t2 = w.open(use_cache=False, records_per_chunk=r,
+                        create_cache=True if plan.get("uncached_also_creates") else None)
         except Exception as e:  # noqa: BLE001
             violations.append(Violation(ID, "uncached-open-raised", site, {"error": exc_text(e)}))
             t2 = None
